@@ -5,3 +5,4 @@ import RSVerif.Properties.C09
 #print axioms RS.default_new_eq_dedicated_dec
 #print axioms RS.default_reset_rate
 #print axioms RS.ops_ignore_kind
+#print axioms RS.source_default_codec_is_rule
